@@ -1,6 +1,7 @@
-(* Lemmas about the MODEL (ServerWriteModel.v): invariants of every reachable state and the
-   accounting of bytes over every history, for every sequence of send outcomes and readiness
-   reports (they are inputs of [step], so "forall history" quantifies over them). *)
+(* Lemmas about the MODEL (ServerWriteModel.v): what every operation does, by cases; the invariant
+   of every reachable state; the accounting of bytes over every history.  The operating system is
+   an input of [step] (the outcome of every send, the readiness of every poll event), so "for all
+   histories" quantifies over every behaviour of the kernel. *)
 From Coq Require Import ZArith List Bool Lia.
 From ServerWrite Require Import ServerWriteSpec ServerWriteModel.
 Import ListNotations.
@@ -54,6 +55,12 @@ Definition backlog (s : st) : list Z := sendbuf s.
 
 Definition reachable (s : st) : Prop := exists ops, fst (exec init ops) = s.
 
+(* all callbacks of a history, in order *)
+Definition callbacks (outs : list out) : list cb := concat (map o_cbs outs).
+
+Definition cb_eq_dec (a b : cb) : {a = b} + {a <> b}.
+Proof. decide equality. Defined.
+
 (* outcomes the property text quantifies over: would-block, any partial count, full *)
 Definition benign_outcome (o : outcome) : bool :=
   match o with WouldBlock | Sent _ | Full => true | _ => false end.
@@ -62,6 +69,15 @@ Definition benign_op (x : op) : bool :=
   | Write _ o | Dispatch _ o | PollReal o => benign_outcome o
   | Remove => false
   | _ => true
+  end.
+
+(* the suspended flag as the application's calls determine it *)
+Fixpoint susp_of_ops (ops : list op) (cur : bool) : bool :=
+  match ops with
+  | [] => cur
+  | Suspend :: l => susp_of_ops l true
+  | Resume :: l => susp_of_ops l false
+  | _ :: l => susp_of_ops l cur
   end.
 
 (* ---- small facts ------------------------------------------------------------------------------ *)
@@ -75,11 +91,17 @@ Proof. destruct l; simpl; congruence. Qed.
 Lemma is_nil_iff l : is_nil l = true <-> l = [].
 Proof. split; [apply is_nil_true | intros ->; reflexivity]. Qed.
 
+Lemma is_nil_false_iff l : is_nil l = false <-> l <> [].
+Proof. split; [apply is_nil_false | destruct l; simpl; congruence]. Qed.
+
 Lemma ztake_zdrop k l : ztake k l ++ zdrop k l = l.
 Proof. unfold ztake, zdrop. apply firstn_skipn. Qed.
 
 Lemma zlen_nonneg l : 0 <= zlen l.
 Proof. unfold zlen. lia. Qed.
+
+Lemma zlen_app a b : zlen (a ++ b) = zlen a + zlen b.
+Proof. unfold zlen. rewrite app_length. lia. Qed.
 
 Lemma zlen_nil_iff l : zlen l = 0 <-> l = [].
 Proof. unfold zlen. destruct l; simpl; split; intros; try congruence; lia. Qed.
@@ -99,6 +121,9 @@ Proof. reflexivity. Qed.
 Lemma zlen_zdrop k l : 0 <= k -> zlen (zdrop k l) = Z.max 0 (zlen l - k).
 Proof. unfold zlen, zdrop. intros. rewrite skipn_length. lia. Qed.
 
+Lemma zlen_ztake k l : 0 <= k -> zlen (ztake k l) = Z.min k (zlen l).
+Proof. unfold zlen, ztake. intros. rewrite firstn_length. lia. Qed.
+
 Lemma zdrop_nil_iff k l : 0 <= k -> (zdrop k l = [] <-> zlen l <= k).
 Proof.
   intros Hk. rewrite <- zlen_nil_iff, zlen_zdrop by assumption.
@@ -108,8 +133,11 @@ Qed.
 Lemma send_count_range n k : 0 < n -> 1 <= send_count n k <= n.
 Proof. unfold send_count. lia. Qed.
 
-Lemma send_count_le n k : send_count n k <= Z.max n 1.
-Proof. unfold send_count. lia. Qed.
+Lemma send_ret_range n o :
+  0 <= n -> fst (send_ret n o) = -1 \/ 0 <= fst (send_ret n o) <= n.
+Proof.
+  intros Hn. destruct o; simpl; try lia. unfold send_count. lia.
+Qed.
 
 (* the model's raw (return value, errno) view and the spec's classification agree *)
 Lemma send_ret_result n o :
@@ -132,28 +160,11 @@ Proof.
   - left. split; reflexivity.
 Qed.
 
-(* ---- invariant ---------------------------------------------------------------------------------- *)
-
-Record inv (s : st) : Prop := mkinv {
-  inv_interest : registered s = true ->
-                 int_r s = negb (suspended s) /\ int_w s = negb (is_nil (sendbuf s));
-  inv_removed : removed s = true -> sendbuf s = [] /\ registered s = false /\ closing s = false
-}.
-
-Lemma inv_init : inv init.
-Proof. split; simpl; intros; [split; reflexivity | discriminate]. Qed.
-
-Ltac inv_pair H := inversion H; subst; clear H.
-
-Lemma send_ret_range n o :
-  0 <= n -> fst (send_ret n o) = -1 \/ 0 <= fst (send_ret n o) <= n.
-Proof.
-  intros Hn. destruct o; simpl; try lia. unfold send_count. lia.
-Qed.
-
 Lemma if_poll_set (b : bool) s w :
   (if b then poll_set s false w else poll_set s true w) = poll_set s (negb b) w.
 Proof. destruct b; reflexivity. Qed.
+
+Ltac inv_pair H := inversion H; subst; clear H.
 
 (* ---- what ClientImpl::write does, by cases ---------------------------------------------------- *)
 
@@ -171,12 +182,16 @@ Inductive write_case (s : st) (d : list Z) (o : outcome) (s' : st) (r : out) : P
     write_case s d o s' r
 | WC_all :                          (* the OS took everything *)
     sendbuf s = [] ->
+    (d = [] /\ send_ret (zlen d) o = (-1, true) \/
+     1 <= fst (send_ret (zlen d) o) /\ zlen d <= fst (send_ret (zlen d) o)) ->
     s' = os_take s d ->
     r = mkout (Some true) 0 [] d [(zlen d, fst (send_ret (zlen d) o))] [] false false ->
     write_case s d o s' r
 | WC_part (sent : Z) :              (* the OS took a proper prefix (possibly nothing: would-block) *)
     sendbuf s = [] ->
     0 <= sent < zlen d ->
+    (sent = 0 /\ send_ret (zlen d) o = (-1, true) \/
+     1 <= sent /\ sent = fst (send_ret (zlen d) o)) ->
     s' = poll_set (set_buf (os_take s (ztake sent d)) (zdrop sent d)) (negb (suspended s)) true ->
     r = mkout (Some true) (zlen (zdrop sent d)) [] (ztake sent d) [(zlen d, fst (send_ret (zlen d) o))] [] false false ->
     write_case s d o s' r.
@@ -188,7 +203,8 @@ Proof.
   - apply is_nil_true in E.
     pose proof (send_ret_range (zlen d) o (zlen_nonneg d)) as Hrange.
     destruct (send_ret (zlen d) o) as [sent0 e0] eqn:Es. simpl in Hrange.
-    assert (Hgo : forall sent, 0 <= sent -> (sent = 0 \/ sent = sent0) ->
+    assert (Hgo : forall sent, 0 <= sent ->
+      (sent = 0 /\ (sent0, e0) = (-1, true) \/ 1 <= sent /\ sent = sent0) ->
       (let tx := ztake sent d in
        let s1 := os_take s tx in
        if sent >=? zlen d then (s1, mkout (Some true) 0 [] tx [(zlen d, sent0)] [] false false)
@@ -198,54 +214,56 @@ Proof.
       write_case s d o s' r).
     { intros sent Hs Hwhich. cbv zeta. destruct (sent >=? zlen d) eqn:E3; intros H.
       - inv_pair H. rewrite ztake_all by lia. apply WC_all; rewrite ?Es; auto.
+        destruct Hwhich as [[H0 Hb] | [H1 Heq]]; [left | right; simpl; lia].
+        split; auto. apply zlen_nil_iff. pose proof (zlen_nonneg d). lia.
       - rewrite if_poll_set in H. inv_pair H.
         apply (WC_part s d o _ _ sent); rewrite ?Es; auto; try lia.
         + simpl. rewrite E. reflexivity.
         + simpl. rewrite E. reflexivity. }
     destruct (sent0 =? -1) eqn:E1.
-    + destruct e0.
-      * apply Hgo; lia.
-      * intros H. inv_pair H. apply WC_fail; rewrite ?Es; auto. right. f_equal. lia.
+    + assert (sent0 = -1) by lia. subst sent0. destruct e0.
+      * apply Hgo; [lia | left; auto].
+      * intros H. inv_pair H. apply WC_fail; rewrite ?Es; auto.
     + destruct (sent0 =? 0) eqn:E2.
       * intros H. inv_pair H. apply WC_fail; rewrite ?Es; auto. left. simpl. lia.
-      * apply Hgo; lia.
+      * apply Hgo; [lia | right; lia].
   - apply is_nil_false in E. intros H. inv_pair H. apply WC_append; auto.
 Qed.
 
-(* ---- what the write-readiness branch of run() does, by cases ---------------------------------- *)
+(* ---- what the write-readiness part of the dispatch does, by cases ----------------------------- *)
 
-Inductive ready_case (s : st) (o : outcome) (s' : st) (r : out) : Prop :=
-| RC_empty :                        (* no backlog (cannot happen in a reachable registered state) *)
+Inductive ready_case (s : st) (o : outcome) (s' : st) (r : out) (fin : bool) : Prop :=
+| RC_empty :                        (* no backlog (cannot happen in a reachable state: no write interest) *)
     sendbuf s = [] ->
     s' = poll_set (set_buf s []) (negb (suspended s)) false ->
     r = mkout None 0 [OnWrite] [] [] [] false false ->
-    ready_case s o s' r
-| RC_block :                        (* the OS refuses: nothing changes *)
-    sendbuf s <> [] ->
-    send_ret (zlen (sendbuf s)) o = (-1, true) ->
-    s' = s ->
-    r = mkout None 0 [] [] [(zlen (sendbuf s), -1)] [] false false ->
-    ready_case s o s' r
+    fin = true ->
+    ready_case s o s' r fin
 | RC_fail :                         (* the send fails: backlog discarded, socket unregistered, onClosed *)
     sendbuf s <> [] ->
     (fst (send_ret (zlen (sendbuf s)) o) = 0 \/ send_ret (zlen (sendbuf s)) o = (-1, false)) ->
     s' = poll_remove (set_buf s []) ->
     r = mkout None 0 [OnClosed] [] [(zlen (sendbuf s), fst (send_ret (zlen (sendbuf s)) o))] [] true false ->
-    ready_case s o s' r
-| RC_part (sent : Z) :              (* a proper prefix of the backlog goes out *)
+    fin = true ->
+    ready_case s o s' r fin
+| RC_part (sent : Z) :              (* a proper prefix of the backlog goes out (nothing: would-block) *)
     sendbuf s <> [] ->
-    1 <= sent < zlen (sendbuf s) ->
-    sent = fst (send_ret (zlen (sendbuf s)) o) ->
+    0 <= sent < zlen (sendbuf s) ->
+    (sent = 0 /\ send_ret (zlen (sendbuf s)) o = (-1, true) \/
+     1 <= sent /\ sent = fst (send_ret (zlen (sendbuf s)) o)) ->
     s' = set_buf (os_take s (ztake sent (sendbuf s))) (zdrop sent (sendbuf s)) ->
-    r = mkout None 0 [] (ztake sent (sendbuf s)) [(zlen (sendbuf s), sent)] [] false false ->
-    ready_case s o s' r
+    r = mkout None 0 [] (ztake sent (sendbuf s)) [(zlen (sendbuf s), fst (send_ret (zlen (sendbuf s)) o))] [] false false ->
+    fin = false ->
+    ready_case s o s' r fin
 | RC_all :                          (* the whole backlog goes out: drained *)
     sendbuf s <> [] ->
+    zlen (sendbuf s) <= fst (send_ret (zlen (sendbuf s)) o) ->
     s' = poll_set (set_buf (os_take s (sendbuf s)) []) (negb (suspended s)) false ->
     r = mkout None 0 [OnWrite] (sendbuf s) [(zlen (sendbuf s), fst (send_ret (zlen (sendbuf s)) o))] [] false false ->
-    ready_case s o s' r.
+    fin = true ->
+    ready_case s o s' r fin.
 
-Lemma write_ready_cases s o s' r : write_ready s o = (s', r) -> ready_case s o s' r.
+Lemma write_ready_cases s o s' r fin : write_ready s o = (s', r, fin) -> ready_case s o s' r fin.
 Proof.
   unfold write_ready.
   destruct (buf_isEmpty (sendbuf s)) eqn:E; simpl.
@@ -254,49 +272,163 @@ Proof.
   - apply is_nil_false in E.
     pose proof (send_ret_range (zlen (sendbuf s)) o (zlen_nonneg _)) as Hrange.
     unfold buf_size.
-    destruct (send_ret (zlen (sendbuf s)) o) as [sent e0] eqn:Es. simpl in Hrange.
-    destruct (sent =? -1) eqn:E1.
-    + assert (sent = -1) by lia. subst sent. destruct e0; intros H; inv_pair H.
-      * apply RC_block; auto.
-      * apply RC_fail; rewrite ?Es; auto.
-    + destruct (sent =? 0) eqn:E2.
+    destruct (send_ret (zlen (sendbuf s)) o) as [sent0 e0] eqn:Es. simpl in Hrange.
+    assert (Hlen : 0 < zlen (sendbuf s)).
+    { pose proof (zlen_nonneg (sendbuf s)). pose proof (zlen_nil_iff (sendbuf s)).
+      destruct (Z.eq_dec (zlen (sendbuf s)) 0); [tauto | lia]. }
+    assert (Hgo : forall sent, 0 <= sent ->
+      (sent = 0 /\ (sent0, e0) = (-1, true) \/ 1 <= sent /\ sent = sent0) ->
+      drained (set_buf (os_take s (ztake sent (sendbuf s)))
+                       (buf_removeFront (sendbuf (os_take s (ztake sent (sendbuf s)))) sent))
+              (ztake sent (sendbuf s)) [(zlen (sendbuf s), sent0)] = (s', r, fin) ->
+      ready_case s o s' r fin).
+    { intros sent Hs Hwhich. unfold drained, buf_isEmpty, buf_removeFront, buf_free. simpl.
+      destruct (is_nil (zdrop sent (sendbuf s))) eqn:E3.
+      - apply is_nil_true in E3. rewrite if_poll_set. simpl. intros H. inv_pair H.
+        assert (Hle : zlen (sendbuf s) <= sent) by (apply zdrop_nil_iff; [lia | assumption]).
+        destruct Hwhich as [[H0 _] | [H1 Heq]]; [lia |].
+        rewrite ztake_all by lia. subst sent. apply RC_all; rewrite ?Es; auto.
+      - apply is_nil_false in E3. intros H. inv_pair H.
+        assert (~ zlen (sendbuf s) <= sent) by (intro; apply E3; apply zdrop_nil_iff; [lia | assumption]).
+        apply (RC_part s o _ _ _ sent); rewrite ?Es; auto; try lia. }
+    destruct (sent0 =? -1) eqn:E1.
+    + assert (sent0 = -1) by lia. subst sent0. destruct e0.
+      * apply Hgo; [lia | left; auto].
+      * intros H; inv_pair H. apply RC_fail; rewrite ?Es; auto.
+    + destruct (sent0 =? 0) eqn:E2.
       * intros H. inv_pair H. apply RC_fail; rewrite ?Es; auto. left. simpl. lia.
-      * unfold drained, buf_isEmpty, buf_removeFront, buf_free. simpl.
-        destruct (is_nil (zdrop sent (sendbuf s))) eqn:E3.
-        -- apply is_nil_true in E3. rewrite if_poll_set. simpl. intros H. inv_pair H.
-           assert (zlen (sendbuf s) <= sent) by (apply zdrop_nil_iff; [lia | assumption]).
-           rewrite ztake_all by lia. apply RC_all; rewrite ?Es; auto.
-        -- apply is_nil_false in E3. intros H. inv_pair H.
-           assert (~ zlen (sendbuf s) <= sent) by (intro; apply E3; apply zdrop_nil_iff; [lia | assumption]).
-           apply (RC_part s o _ _ sent); rewrite ?Es; auto. lia.
+      * apply Hgo; [lia | right; lia].
 Qed.
 
 (* ---- the dispatch rule -------------------------------------------------------------------------- *)
 
+(* the flags of the event the loop sees *)
+Definition ev_read (s : st) (n : native) : bool := (nin n || nhup n) && int_r s.
+Definition ev_write (s : st) (n : native) : bool := (nout n || negb (ev_read s n) && nhup n) && int_w s.
+
+Lemma dispatch_flags_eq s n o :
+  registered s = true ->
+  dispatch s n o = dispatch_flags s (ev_read s n) (ev_write s n) o.
+Proof.
+  intros Hr. unfold dispatch, ev_write, ev_read, unmap_events, kernel_filter. rewrite Hr. simpl.
+  destruct (nin n), (nout n), (nhup n), (int_r s), (int_w s); reflexivity.
+Qed.
+
 Inductive dispatch_case (s : st) (n : native) (o : outcome) (s' : st) (r : out) : Prop :=
-| DC_none : s' = s -> r = out_none -> dispatch_case s n o s' r
-| DC_read : registered s = true -> int_r s = true -> (nin n || nhup n) = true ->
+| DC_none : (registered s = false \/ (ev_read s n = false /\ ev_write s n = false)) ->
+            s' = s -> r = out_none -> dispatch_case s n o s' r
+| DC_read : registered s = true -> ev_read s n = true -> ev_write s n = false ->
             s' = s -> r = out_cb OnRead -> dispatch_case s n o s' r
-| DC_write : registered s = true -> int_w s = true ->
-             ((nin n || nhup n) && int_r s) = false ->
-             write_ready s o = (s', r) -> dispatch_case s n o s' r.
+| DC_write (r0 : out) (fin : bool) :
+            registered s = true -> ev_write s n = true ->
+            write_ready s o = (s', r0, fin) ->
+            r = (if fin then r0 else if ev_read s n then add_cb r0 OnRead else r0) ->
+            dispatch_case s n o s' r.
 
 Lemma dispatch_cases s n o s' r : dispatch s n o = (s', r) -> dispatch_case s n o s' r.
 Proof.
-  unfold dispatch.
-  destruct (registered s) eqn:Er; simpl.
-  2:{ intros H. inv_pair H. apply DC_none; auto. }
-  destruct (nin n && int_r s || nout n && int_w s || nhup n) eqn:Ek; simpl.
-  2:{ intros H. inv_pair H. apply DC_none; auto. }
-  destruct ((nin n && int_r s || nhup n) && int_r s) eqn:Efr.
-  - assert (Hir : int_r s = true)
-      by (destruct (int_r s); [reflexivity | rewrite andb_false_r in Efr; discriminate]).
-    assert (Hn : (nin n || nhup n) = true)
-      by (destruct (nin n), (nhup n), (int_r s); simpl in *; congruence).
-    intros H. inv_pair H. apply DC_read; auto.
-  - simpl. destruct ((nout n && int_w s || nhup n) && int_w s) eqn:Efw.
-    + intros H. apply DC_write; auto.
-      * destruct (int_w s); [reflexivity | rewrite andb_false_r in Efw; discriminate].
-      * destruct (nin n), (nhup n), (int_r s); simpl in *; congruence.
-    + intros H. inv_pair H. apply DC_none; auto.
+  destruct (registered s) eqn:Er.
+  2:{ unfold dispatch. rewrite Er. simpl. intros H. inv_pair H. apply DC_none; auto. }
+  rewrite dispatch_flags_eq by assumption. unfold dispatch_flags.
+  destruct (ev_write s n) eqn:Ew.
+  - destruct (write_ready s o) as [[s1 r1] fin] eqn:Ewr.
+    intros H. apply (DC_write s n o s' r r1 fin); auto.
+    + destruct fin; [inv_pair H; auto |]. destruct (ev_read s n); inv_pair H; auto.
+    + destruct fin; [inv_pair H; auto |]. destruct (ev_read s n); inv_pair H; auto.
+  - destruct (ev_read s n) eqn:Erd; intros H; inv_pair H.
+    + apply DC_read; auto.
+    + apply DC_none; auto.
+Qed.
+
+(* ---- invariant ---------------------------------------------------------------------------------- *)
+
+Record inv (s : st) : Prop := mkinv {
+  inv_interest : registered s = true ->
+                 int_r s = negb (suspended s) /\ int_w s = negb (is_nil (sendbuf s));
+  inv_unreg : registered s = false -> sendbuf s = [];
+  inv_removed : removed s = true -> sendbuf s = [] /\ registered s = false /\ closing s = false
+}.
+
+Lemma inv_init : inv init.
+Proof. split; simpl; intros; try discriminate; split; reflexivity. Qed.
+
+Lemma nonnil_is_nil (l : list Z) : l <> [] -> is_nil l = false.
+Proof. destruct l; simpl; congruence. Qed.
+
+Lemma zdrop_nonnil k l : 0 <= k < zlen l -> zdrop k l <> [].
+Proof. intros H E. apply zdrop_nil_iff in E; lia. Qed.
+
+Lemma inv_write_ready s o s' r fin : inv s -> removed s = false -> write_ready s o = (s', r, fin) -> inv s' /\ removed s' = false.
+Proof.
+  intros [Hi Hu Hr] Hrm H. apply write_ready_cases in H.
+  destruct H as [He -> _ _ | Hne _ -> _ _ | sent Hne Hs _ -> _ _ | Hne _ -> _ _].
+  - split; [split|]; simpl; intros; auto; try congruence.
+  - split; [split|]; simpl; intros; auto; try congruence.
+  - split; [split|]; simpl; intros; auto; try congruence.
+    + destruct (Hi H) as [A B]. split; auto. rewrite nonnil_is_nil by (apply zdrop_nonnil; lia).
+      rewrite B. rewrite nonnil_is_nil; auto.
+    + rewrite Hu in Hne; auto. congruence.
+  - split; [split|]; simpl; intros; auto; try congruence.
+Qed.
+
+Lemma inv_step s x s' r : inv s -> step s x = (s', r) -> inv s'.
+Proof.
+  intros Hinv. pose proof Hinv as [Hi Hu Hr]. unfold step.
+  destruct (removed s) eqn:Erm. { intros H; inv_pair H; assumption. }
+  destruct x.
+  - (* Write *) intros H. apply do_write_cases in H.
+    destruct H as [Hne -> _ | He _ -> _ | He _ -> _ | sent He Hs _ -> _]; split; simpl; intros; auto; try congruence.
+    + destruct (Hi H) as [A B]. split; auto. rewrite B.
+      rewrite !nonnil_is_nil; auto. intro E. apply app_eq_nil in E. tauto.
+    + rewrite Hu in Hne; auto. congruence.
+    + split; auto. rewrite nonnil_is_nil; auto. apply zdrop_nonnil; lia.
+  - (* Dispatch *) intros H. apply dispatch_cases in H.
+    destruct H as [_ -> _ | _ _ _ -> _ | r0 fin _ _ Hw _]; auto.
+    eapply inv_write_ready; eauto.
+  - (* PollReal *) intros H. apply dispatch_cases in H.
+    destruct H as [_ -> _ | _ _ _ -> _ | r0 fin _ _ Hw _]; auto.
+    eapply inv_write_ready; eauto.
+  - (* CloseSweep *) destruct (closing s); intros H; inv_pair H; auto.
+    split; simpl; auto. intros; congruence.
+  - (* Suspend *) intros H. inv_pair H. unfold do_suspend.
+    destruct (suspended s) eqn:Es; auto.
+    destruct (buf_isEmpty (sendbuf (set_susp s true))) eqn:E; simpl in E; unfold buf_isEmpty in E;
+      split; simpl; intros; try congruence; rewrite ?E; simpl; auto.
+  - (* Resume *) intros H. inv_pair H. unfold do_resume.
+    destruct (suspended s) eqn:Es; cbn [negb]; auto.
+    destruct (buf_isEmpty (sendbuf (set_susp s false))) eqn:E; simpl in E; unfold buf_isEmpty in E;
+      split; simpl; intros; try congruence; rewrite ?E; simpl; auto.
+  - (* Read *) unfold do_read. destruct (recv_count (inbound s) (peer_closed s) max) as [k|].
+    + destruct (k =? 0); intros H; inv_pair H; split; simpl; auto; intros; congruence.
+    + intros H; inv_pair H; auto.
+  - (* PeerWrite *) intros H; inv_pair H. destruct (peer_closed s); auto. split; simpl; auto; intros; congruence.
+  - (* PeerRead *) destruct (peer_closed s); intros H; inv_pair H; auto. split; simpl; auto; intros; congruence.
+  - (* PeerClose *) destruct (peer_closed s); intros H; inv_pair H; auto. split; simpl; auto; intros; congruence.
+  - (* Remove *) intros H; inv_pair H. split; simpl; intros; auto; try discriminate.
+Qed.
+
+Lemma exec_app s l1 l2 :
+  exec s (l1 ++ l2) =
+  let '(s1, o1) := exec s l1 in let '(s2, o2) := exec s1 l2 in (s2, o1 ++ o2).
+Proof.
+  revert s. induction l1 as [|x l1 IH]; intros s; simpl.
+  - destruct (exec s l2); reflexivity.
+  - destruct (step s x) as [s1 r]. rewrite IH.
+    destruct (exec s1 l1) as [s2 o1]. destruct (exec s2 l2). reflexivity.
+Qed.
+
+Lemma inv_exec s l : inv s -> inv (fst (exec s l)).
+Proof.
+  revert s. induction l as [|x l IH]; intros s Hs; simpl; auto.
+  destruct (step s x) as [s1 r] eqn:E. specialize (IH s1 (inv_step _ _ _ _ Hs E)).
+  destruct (exec s1 l). exact IH.
+Qed.
+
+Lemma inv_reachable s : reachable s -> inv s.
+Proof. intros [ops <-]. apply inv_exec, inv_init. Qed.
+
+Lemma exec_length s l : length (snd (exec s l)) = length l.
+Proof.
+  revert s. induction l as [|x l IH]; intros s; simpl; auto.
+  destruct (step s x) as [s1 r]. specialize (IH s1). destruct (exec s1 l). simpl in *. congruence.
 Qed.
